@@ -23,19 +23,38 @@ Theorem C01_host_never_receives_duplicate :
     u ∉ get_ents s 0 /\ ESpawn u ∉ q.
 Proof. exact EntitiesProofs.host_never_receives_duplicate. Qed.
 
-(* convergence: outside the two known defect classes (S11: a client re-connects still holding
-   entities; S18: a client despawns a replica while a re-creation of it is on its way to that
-   client), every quiescent state is an agreeing state — host and every connected, synced client hold
-   the same uuids, each exactly once — and what they hold is what the history says is alive (spawned
-   and not despawned), for every uuid whose announcement was not lost with a departing client *)
+(* convergence: outside the known defect class S11 (a client re-connects still holding entities),
+   every quiescent state is an agreeing state — host and every connected, synced client hold the
+   same uuids, each exactly once — and what they hold is what the history says is alive (spawned and
+   not despawned), for every uuid whose announcement was not lost with a departing client.
+   (S18 — a client despawning a replica while a re-creation of it was on its way to it — was a
+   second excluded class until the repair 3a36420: the client now ignores a spawn for an entity it
+   despawned itself during the current session.) *)
 Theorem C01_entities_converge :
   forall tr s, run init tr = Some s ->
-    known_S11 tr = false -> known_S18 tr = false -> quiescent s ->
+    known_S11 tr = false -> quiescent s ->
     agree s /\
     (forall u, u ∉ dropped_uuids tr -> (u ∈ get_ents s 0 <-> u ∈ spec_alive tr)) /\
     (forall c u, c ∈ conn s -> c ∈ synced s -> u ∉ dropped_uuids tr ->
                  (u ∈ get_ents s c <-> u ∈ spec_alive tr)).
 Proof. exact EntitiesProofs.C01_entities_converge. Qed.
+
+(* at quiescence every connected client has been given its snapshot, so the side condition above
+   is redundant: EVERY connected client holds exactly the host's set *)
+Theorem C01_every_connected_client :
+  forall tr s, run init tr = Some s -> known_S11 tr = false -> quiescent s ->
+    forall c, c ∈ conn s ->
+      NoDup (get_ents s c) /\ (forall u, u ∈ get_ents s c <-> u ∈ get_ents s 0) /\
+      (forall u, u ∉ dropped_uuids tr -> (u ∈ get_ents s c <-> u ∈ spec_alive tr)).
+Proof. exact EntitiesProofs.C01_every_connected_client. Qed.
+
+(* a client that connects at ANY moment and is still connected ends with exactly the host's entities *)
+Theorem C01_joiner_gets_entities :
+  forall tr1 c tr2 s,
+    run init (tr1 ++ EvConnect c :: tr2) = Some s -> known_S11 (tr1 ++ EvConnect c :: tr2) = false ->
+    quiescent s -> c ∈ conn s ->
+    NoDup (get_ents s c) /\ forall u, u ∈ get_ents s c <-> u ∈ get_ents s 0.
+Proof. exact EntitiesProofs.joiner_gets_entities. Qed.
 
 (* the host matches the history on every run, no class excluded *)
 Theorem C01_host_matches_history :
@@ -43,28 +62,21 @@ Theorem C01_host_matches_history :
     forall u, u ∉ dropped_uuids tr -> (u ∈ get_ents s 0 <-> u ∈ spec_alive tr).
 Proof. exact EntitiesProofs.C01_host_matches_spec. Qed.
 
-(* without departures only S18 has to be excluded, and nothing is lost *)
+(* without departures no class has to be excluded, and nothing is lost *)
 Theorem C01_entities_converge_no_leave :
-  forall tr s, run init tr = Some s -> (forall c, EvLeave c ∉ tr) -> known_S18 tr = false -> quiescent s ->
+  forall tr s, run init tr = Some s -> (forall c, EvLeave c ∉ tr) -> quiescent s ->
     agree s /\ forall u, u ∈ get_ents s 0 <-> u ∈ spec_alive tr.
 Proof. exact EntitiesProofs.C01_entities_converge_no_leave. Qed.
 
-(* the S18 class lies inside the purely temporal window "a client despawns something between its
-   connection and the delivery of its FinishedInitialSync" *)
-Theorem C01_entities_converge_outside_join_window :
-  forall tr s, run init tr = Some s -> known_S11 tr = false -> known_S18_window tr = false -> quiescent s ->
-    agree s /\ (forall u, u ∉ dropped_uuids tr -> (u ∈ get_ents s 0 <-> u ∈ spec_alive tr)).
-Proof. exact EntitiesProofs.C01_entities_converge_window. Qed.
-
-(* Known findings S11 and S18: the unrestricted statement is false of the faithful model (and of the
-   real code: corpus/proto/S11_*.scn, S18_*.scn) *)
+(* Known finding S11 (open): the unrestricted statement is false of the faithful model (and of the
+   real code: corpus/proto/S11_*.scn) *)
 Theorem C01_refuted_reconnect_keeps_deleted :
   exists tr s, run init tr = Some s /\ quiescent s /\ ~ agree s.
 Proof. exact EntitiesProofs.C01_refuted_S11. Qed.
 
-Theorem C01_refuted_despawn_during_own_join :
+Theorem C01_refuted_reconnect_lost_spawn :
   exists tr s, run init tr = Some s /\ quiescent s /\ ~ agree s.
-Proof. exact EntitiesProofs.C01_refuted_S18. Qed.
+Proof. exact EntitiesProofs.C01_refuted_S11_lost_spawn. Qed.
 
 Theorem C01_unrestricted_is_false :
   ~ (forall tr s, run init tr = Some s -> quiescent s -> agree s).
@@ -73,9 +85,10 @@ Proof. exact EntitiesProofs.C01_unrestricted_is_false. Qed.
 Print Assumptions C01_entities_unique.
 Print Assumptions C01_host_never_receives_duplicate.
 Print Assumptions C01_entities_converge.
+Print Assumptions C01_every_connected_client.
+Print Assumptions C01_joiner_gets_entities.
 Print Assumptions C01_host_matches_history.
 Print Assumptions C01_entities_converge_no_leave.
-Print Assumptions C01_entities_converge_outside_join_window.
 Print Assumptions C01_refuted_reconnect_keeps_deleted.
-Print Assumptions C01_refuted_despawn_during_own_join.
+Print Assumptions C01_refuted_reconnect_lost_spawn.
 Print Assumptions C01_unrestricted_is_false.
